@@ -1,0 +1,50 @@
+// Copyright 2019 Samaritan Authors
+//
+// Licensed under the Apache License, Version 2.0 (the "License");
+// you may not use this file except in compliance with the License.
+// You may obtain a copy of the License at
+//
+//      http://www.apache.org/licenses/LICENSE-2.0
+//
+// Unless required by applicable law or agreed to in writing, software
+// distributed under the License is distributed on an "AS IS" BASIS,
+// WITHOUT WARRANTIES OR CONDITIONS OF ANY KIND, either express or implied.
+// See the License for the specific language governing permissions and
+// limitations under the License.
+
+//go:build verif
+// +build verif
+
+// Package verifhook provides named pause/trace points for the model-based
+// verification harness. It is only active with the build tag "verif".
+package verifhook
+
+import "sync/atomic"
+
+// Func is called at every hook point with the name of the point and an
+// identifier of the object the goroutine is working on (an address, a
+// pointer rendered as string, ...). It may block (scheduler gate) and/or
+// record an event (tracer).
+type Func func(point string, id string)
+
+var cur atomic.Value // Func
+
+// Enabled reports whether hooks are compiled in.
+const Enabled = true
+
+// Set installs fn as the hook function; nil removes it.
+func Set(fn Func) {
+	if fn == nil {
+		cur.Store(Func(nil))
+		return
+	}
+	cur.Store(fn)
+}
+
+// At is called by instrumented code.
+func At(point string, id string) {
+	fn, _ := cur.Load().(Func)
+	if fn != nil {
+		fn(point, id)
+	}
+}
